@@ -39,6 +39,8 @@ pub mod hooks {
         pub forwarder_calls: Vec<String>,
         /// what every accepted connection handed to the connection rules: peer address, client random
         pub rule_inputs: Vec<(Option<std::net::IpAddr>, Option<Vec<u8>>)>,
+        /// every operation on the QUIC multiplexer's timer bookkeeping with the state it left
+        pub quic_timer_ops: Vec<String>,
     }
 
     lazy_static::lazy_static! {
@@ -47,6 +49,23 @@ pub mod hooks {
 
     pub fn reset() {
         *STATE.lock().unwrap() = State::default();
+    }
+
+    lazy_static::lazy_static! {
+        static ref T0: tokio::time::Instant = tokio::time::Instant::now();
+    }
+
+    /// microseconds since the first call (a stable, printable form of an `Instant`)
+    pub(crate) fn instant_us(t: tokio::time::Instant) -> u128 {
+        t.saturating_duration_since(*T0).as_micros()
+    }
+
+    pub(crate) fn note_quic_timer_op(op: String) {
+        let _ = *T0;
+        let mut st = STATE.lock().unwrap();
+        if st.quic_timer_ops.len() < 200_000 {
+            st.quic_timer_ops.push(op);
+        }
     }
 
     pub(crate) fn note_rule_input(ip: Option<std::net::IpAddr>, client_random: Option<&[u8]>) {
